@@ -1,37 +1,61 @@
 import Amshan.Generated
 /-
-  Helper lemmas for Props/C01Gen, C03Gen, C04Gen, C18Gen: every definition of Amshan/GeneratedCode.lean
-  (the mechanical translation of Python function bodies) equals the hand-written model.
+  Helper lemmas and tactics for Lemmas/GenCode{Fcs,BackOff,P1,Hdlc}.lean: every definition of
+  Amshan/GeneratedCode*.lean (the mechanical translation of Python function bodies, harness/pytrans.py) equals the
+  hand-written model.
 
-  Loops: the translation never exits a loop early, so every `for` is a fold.  `forIn_list_proj` /
-  `forIn_range_proj` state that for an arbitrary loop body, observed through a projection of the
-  tuple of `let mut` variables; the side condition (one iteration yields, and its projection is the
-  model step) is discharged by `rfl` / `split`, so the proofs do not depend on how the body is spelled.
+  The generated definitions are pure terms: `if … then … else …`, Boolean and arithmetic operators, list lookups,
+  and `List.foldl` for `for` loops.  The equivalence proofs are meant to be SEMANTIC — independent of how the source
+  spells the computation, so that a behaviour-preserving rewrite of the source does not break them:
+  * loops are compared with the model step by step (`foldl_step_eq` / `foldl_proj_eq`); the step function of the
+    generated fold is found by unification and never written down in a proof;
+  * what remains after unfolding and case splitting is closed by `gen_decide`.
 -/
 namespace Amshan.GenLemmas
 
-/-- A `for x in l` loop in `Id` whose body always yields, observed through a projection `p` of the
-    loop state (the tuple of `let mut` variables), is a left fold of the projected state. -/
-theorem forIn_list_proj {α β γ : Type} (p : β → γ) (g : γ → α → γ) (l : List α) (init : β)
-    (f : α → β → Id (ForInStep β))
-    (h : ∀ a s, ∃ s', f a s = pure (ForInStep.yield s') ∧ p s' = g (p s) a) :
-    p (Id.run (forIn l init f)) = l.foldl g (p init) := by
+/-- Two folds with pointwise equal steps are equal.  Used as `rw [foldl_step_eq (g := model step)]`: the step of the
+    generated fold is found by unification, and the pointwise equality is left as a goal, to be closed semantically
+    (`simp` / `grind`), whatever the generated body looks like. -/
+theorem foldl_step_eq {α β : Type} {f g : β → α → β} (l : List α) (init : β) (h : ∀ s a, f s a = g s a) :
+    l.foldl f init = l.foldl g init := by
+  have : f = g := funext fun s => funext (h s)
+  rw [this]
+
+/-- the same, through a projection `p` of the state of the generated fold (when the source keeps more variables
+    alive across iterations than the model has) -/
+theorem foldl_proj_eq {α β γ : Type} (p : β → γ) {f : β → α → β} {g : γ → α → γ} (l : List α) (init : β)
+    (h : ∀ s a, p (f s a) = g (p s) a) : p (l.foldl f init) = l.foldl g (p init) := by
   induction l generalizing init with
   | nil => rfl
-  | cons a t ih =>
-    obtain ⟨s', hs, hp⟩ := h a init
-    rw [List.forIn_cons, hs]
-    simp only [pure_bind, List.foldl_cons]
-    rw [ih, hp]
+  | cons a t ih => simp only [List.foldl_cons, ih, h]
 
-/-- the same for `for i in [a:b]` -/
-theorem forIn_range_proj {β γ : Type} (p : β → γ) (g : γ → Nat → γ) (a b : Nat) (init : β)
-    (f : Nat → β → Id (ForInStep β))
-    (h : ∀ i s, ∃ s', f i s = pure (ForInStep.yield s') ∧ p s' = g (p s) i) :
-    p (Id.run (forIn (Std.Legacy.Range.mk a b 1 (by decide)) init f)) = (List.range' a (b - a)).foldl g (p init) := by
-  rw [Std.Legacy.Range.forIn_eq_forIn_range']
-  simp only [Std.Legacy.Range.size, Nat.add_sub_cancel, Nat.div_one]
-  exact forIn_list_proj p g _ init f h
+/-! ### masks and shifts as arithmetic (for sources that write `% 2048` for `& 0x7FF`, `// 4096` for `>> 12`, ...) -/
+
+theorem and_mask1 (x : Nat) : x &&& 1 = x % 2 := Nat.and_two_pow_sub_one_eq_mod x 1
+theorem and_mask4 (x : Nat) : x &&& 15 = x % 16 := Nat.and_two_pow_sub_one_eq_mod x 4
+theorem and_mask8 (x : Nat) : x &&& 255 = x % 256 := Nat.and_two_pow_sub_one_eq_mod x 8
+theorem and_mask11 (x : Nat) : x &&& 2047 = x % 2048 := Nat.and_two_pow_sub_one_eq_mod x 11
+theorem and_mask16 (x : Nat) : x &&& 65535 = x % 65536 := Nat.and_two_pow_sub_one_eq_mod x 16
+theorem mask1_and (x : Nat) : 1 &&& x = x % 2 := by rw [Nat.and_comm, and_mask1]
+theorem mask4_and (x : Nat) : 15 &&& x = x % 16 := by rw [Nat.and_comm, and_mask4]
+theorem mask8_and (x : Nat) : 255 &&& x = x % 256 := by rw [Nat.and_comm, and_mask8]
+theorem mask11_and (x : Nat) : 2047 &&& x = x % 2048 := by rw [Nat.and_comm, and_mask11]
+theorem mask16_and (x : Nat) : 65535 &&& x = x % 65536 := by rw [Nat.and_comm, and_mask16]
+
+/-- a bit selects: `b * k` for a bit `b` -/
+theorem bit_cases (x : Nat) : x % 2 = 0 ∨ x % 2 = 1 := Nat.mod_two_eq_zero_or_one x
+
+/-- Closes what is left of an equivalence once the generated definition and the model are unfolded and the data
+    is split into cases: a statement about `if`s, Booleans, options, list lookups, `max`/`min`, bit operators and
+    linear arithmetic.  `grind` first; then with masks and shifts turned into `%`, `/`, `*`. -/
+macro "gen_decide" : tactic =>
+  `(tactic| first
+    | done
+    | grind
+    | (simp only [and_mask1, and_mask4, and_mask8, and_mask11, and_mask16, mask1_and, mask4_and, mask8_and,
+        mask11_and, mask16_and, Nat.shiftRight_eq_div_pow, Nat.shiftLeft_eq, Nat.reducePow] at * <;> grind)
+    | (simp <;> grind)
+    | omega)
 
 /-- `g` applied `n` times -/
 def iter {γ : Type} (g : γ → γ) : Nat → γ → γ
